@@ -138,13 +138,26 @@ static inline void vseq_resize_val(vseq *c, size_t n, velem v) { vseq_resize(c, 
 static inline void vseq_reserve(vseq *c, size_t n) { if (n > c->cap) { VERIF_THROW(K_length_error, "reserve beyond max_size / allocation failure"); } }
 /* basic_string::substr(pos, len): throws out_of_range if pos > size(); result length min(len, size - pos) */
 static inline size_t vseq_substr(const vseq *s, size_t pos, size_t len) { if (pos > s->size) { VERIF_THROW(K_out_of_range, "basic_string::substr: pos > size()"); } return len < s->size - pos ? len : s->size - pos; }
+/* String(ptr + pos, n): reads the n bytes at [pos, pos + n) - they must lie inside the source string */
+static inline size_t vseq_from_range(const vseq *s, size_t pos, size_t n) { VERIF_STD_PRE(pos <= s->size && n <= s->size - pos, "basic_string(const char *p, size_t n): [p, p + n) is a valid range of the source"); return n; }
+#define VERIF_MIN(a, b) ((a) < (b) ? (a) : (b))
 /* the find family is total in C++ (any pos is allowed); the result is npos or an index */
 #ifdef VERIF_CBMC
 static inline size_t vseq_find_any(const vseq *s) { size_t verif_r; __CPROVER_assume(verif_r == (size_t)-1 || verif_r < s->size); return verif_r; }
 #else
 static inline size_t vseq_find_any(const vseq *s) { return (size_t)-1; }
 #endif
-#define vseq_find(s, f, pos) vseq_find_any(s)
+#ifdef VERIF_CBMC
+static inline size_t vseq_find_fwd(const vseq *s, const vseq *f, size_t pos) {
+  size_t verif_r;
+  /* [string.find]: the lowest xpos >= pos with xpos + f.size() <= size(); for an empty needle that is pos itself when pos <= size() */
+  __CPROVER_assume(f->size == 0 ? verif_r == (pos <= s->size ? pos : (size_t)-1) : (verif_r == (size_t)-1 || (verif_r >= pos && verif_r < s->size && f->size <= s->size - verif_r)));
+  return verif_r;
+}
+#else
+static inline size_t vseq_find_fwd(const vseq *s, const vseq *f, size_t pos) { return (size_t)-1; }
+#endif
+#define vseq_find(s, f, pos) vseq_find_fwd(s, f, pos)
 #define vseq_rfind(s, f, pos) vseq_find_any(s)
 #define vseq_find_first_of(s, f, pos) vseq_find_any(s)
 #define vseq_find_last_of(s, f, pos) vseq_find_any(s)
